@@ -24,7 +24,10 @@ def one(b, rnd, stack, pkt, pd, rules, d, strat, klass, cm=None):
     if cm is None:
         cm = ContextManager(Context(id='c', description='', interface_id='i', parser_id=stack, ruleset=rules))
     bits = b2s(pkt)
-    out = obs_bits(with_timeout(lambda: cm.compress(Buffer(pkt, len(pkt) * 8), direction=d, match_strategy=strat)))
+    res_ = with_timeout(lambda: cm.compress(Buffer(pkt, len(pkt) * 8), direction=d, match_strategy=strat))
+    out = obs_bits(res_)
+    from schc_run import bytes_cm_compress
+    bytes_cm_compress(b, klass, stack, pkt, d, strat == MatchStrategy.FIRST, rules, res_)
     # rules of fragmentation nature share the id space; the compressor must never select them: model and reference do not see them
     nrs = [n_rule(r) for r in rules if r.nature is not RuleNature.FRAGMENTATION]
     npd = dict(n_pdesc(pd), dir=DIRC[d])
